@@ -496,6 +496,12 @@ def main(argv):
             c.violation("gzcompress-roundtrip: %d bytes level %d expands to %d bytes in %d members" % (len(d), lvl, len(back), members), rep)
         contract_encoder(c, ev, "gzip")
 
+    # --- thorough: all cases again through the ASan+UBSan build (no interposer): uninitialised or
+    #     out-of-bounds use in the driver code shows up as a sanitizer report
+    if c.tier == "thorough":
+        os.environ["HX_TMPDIR"] = codeclog.scratch_dir()
+        asan_lines(c, "hx_compress", [l for l in lines if len(l) < 400000], what="(ReadCompressed/WriteCompressed/GZCompress)")
+
     # --- the real tool writing through ThreadedBufferedStream<WriteCompressed>
     sd = os.path.join(codeclog.scratch_dir(), "c15-shard-%d" % os.getpid())
     for comp in ("gzip", "bzip2"):
